@@ -77,7 +77,15 @@ def parse(text, multiple, as_bytes):
 def input_text(case):
     if case["gen"] == "tree":
         parts = [M.render(t, folds=case.get("folds"), eol=case.get("eol", "\r\n"), fold_ws=case.get("fold_ws", " ")) for t in case["trees"]]
-        return "".join(parts)
+        text = "".join(parts)
+        if case.get("respell") is not None:
+            # not RFC text any more, but text the parser accepts: one letter of a property name is replaced by a non-ASCII letter whose
+            # upper case is that ASCII letter (U+017F long s, U+0131 dotless i).  Only the clause for accepted input applies to it.
+            ms = [m for m in re.finditer(r"(?m)^(?!BEGIN|END|begin|end|Begin|End)([A-Za-z0-9-]*?)([SsIi])(?=[A-Za-z0-9-]*[;:])", text)]
+            if ms:
+                m = ms[case["respell"] % len(ms)]
+                text = text[:m.start(2)] + ("\u017f" if m.group(2) in "Ss" else "\u0131") + text[m.end(2):]
+        return text
     if case["gen"] == "fixture":
         return mutate(fixtures()[case["fixture"]], case["muts"])
     if "b64" in case:
@@ -109,7 +117,7 @@ def judge(case):
     try:
         t1 = parse(text, multiple, case.get("as_bytes", True))
     except ValueError:
-        if case["gen"] == "tree":
+        if case["gen"] == "tree" and case.get("respell") is None:
             fails.append(Failure("C01.denote", "well-formed-input-rejected", f"{text[:300]!r}"))
         return fails
     except Exception:  # noqa: BLE001 - not accepted; escapes other than ValueError are C04's clause
@@ -140,7 +148,7 @@ def judge(case):
         except Exception as e:
             fails.append(Failure("C01.stable", "second-serialise-raises/" + exc_signature(e), repr(e)[:200]))
     # ---- O-denote
-    if case["gen"] == "tree":
+    if case["gen"] == "tree" and case.get("respell") is None:
         if len(comps1) != len(case["trees"]):
             fails.append(Failure("C01.denote", "component-count-differs", f"{len(comps1)} vs {len(case['trees'])}"))
         else:
@@ -276,6 +284,8 @@ def info(case):
     if case.get("pre_lookup") and re.search(r"(?i)TZID=", text):
         classes.append("history:zone-ids-looked-up-before")
     nt = False
+    if case.get("respell") is not None and ("\u017f" in text or "\u0131" in text):
+        classes.append("property-name-with-non-ascii-letter-of-ascii-upper-case")
     if case["gen"] == "tree":
         for tree in case["trees"]:
             for n in T.preorder(tree):
@@ -472,7 +482,8 @@ def tree_cases(draw):
     return {"gen": "tree", "provider": draw(st.sampled_from(["zoneinfo", "pytz"])), "trees": trees, "multiple": n > 1 or draw(st.booleans()),
             "folds": draw(st.one_of(st.none(), st.lists(st.integers(0, 40), min_size=1, max_size=5))),
             "fold_ws": draw(st.sampled_from([" ", "\t", " \t"])), "eol": draw(st.sampled_from(["\r\n", "\r\n", "\n"])),
-            "as_bytes": draw(st.booleans()), "pre_lookup": draw(st.sampled_from([False, False, True]))}
+            "as_bytes": draw(st.booleans()), "pre_lookup": draw(st.sampled_from([False, False, True])),
+            "respell": draw(st.one_of(st.none(), st.none(), st.none(), st.integers(0, 40)))}
 
 
 TOKENS = [":", ";", ",", "=", '"', "\\", "\\n", "\\,", "BEGIN:VEVENT", "END:VEVENT", "TZID=Europe/Berlin", "VALUE=DATE", "Z", "/", "P1D", "20200101",
